@@ -165,6 +165,7 @@ def run(ctx):
                   what='the legal value 0 (e.g. slack t = 0)')
     check_gem(ctx)
     check_helpers(ctx)
+    check_inputs_unmodified(ctx)
 
 
 def check_primitive(ctx, fi, spec, flags):
@@ -395,3 +396,31 @@ def check_best_noise(ctx):
                % (sampler, helper, U(src) if src is not None else None), construct='result ' + U(c)[:100])
     if n == 0:
         raise AnalysisError('best_noise_distribution: no partial(...) return found')
+
+
+def check_inputs_unmodified(ctx):
+    """A selection / release helper is called once per round on the same stored answers, measurements and candidate lists: an in-place
+    update (`x -= ...`, `out=`) that reaches an ELEMENT of an argument (or an array argument itself) corrupts what later rounds read.
+    Origin analysis (E2) over mechanisms/; scalar sensitivity parameters (`*_sensitivity *= 2.0` rebinds a number) are exempt."""
+    from ..engines.alias import Scope
+    files = [f for f in ('mechanisms/mwem+pgm.py', 'mechanisms/mst.py', 'mechanisms/aim.py', 'mechanisms/adaptive_grid.py', 'mechanisms/mechanism.py')
+             if ctx.repo.exists(f)]
+    scope = Scope(ctx.repo, files, {})
+    scope.solve()
+    n = 0
+    for (rel, q), summ in sorted(scope.summaries.items()):
+        if not ctx.repo.has_func(rel, q):
+            continue
+        fi = ctx.repo.func(rel, q)
+        seen = set()
+        for site in summ.sites:
+            k = (getattr(site.node, 'lineno', 0), getattr(site.node, 'col_offset', 0), site.what)
+            if k in seen:
+                continue
+            seen.add(k)
+            n += 1
+            bad = sorted(t for t in site.origins if (t.startswith('Pe:') or (t.startswith('P:') and not t.endswith('sensitivity'))) and not t.endswith(':self'))
+            ctx.ob('inputs-unmodified', fi, site.node, not bad,
+                   '%s acts on %s' % (site.what, 'objects of this call' if not bad else
+                                      'the caller\'s data (%s): the same answers / measurements are read again by later rounds' % ', '.join(bad)))
+    ctx.floor('in-place sites in mechanisms/', n, 10)
